@@ -105,6 +105,9 @@ func checkDeterminism(rec *stats.Recorder, c valCase) (msg string, known string)
 	t := typeByName(c.Type)
 	v := c.Value
 	labels := []string{"format=" + c.Format, fmt.Sprintf("max_map_size=%d", min3(maxMapSize(v)))}
+	if c.AfterFailure > 0 {
+		labels = append(labels, "after_failed_marshal")
+	}
 	rec.Case(labels...)
 	if maxMapSize(v) >= 2 || (c.Format == "query-fields" && len(v.Flds) >= 2) {
 		rec.NonTrivial(c.Format, c.Type+"|"+c.Format+"|"+v.Canon(), func() any { return c })
@@ -114,6 +117,10 @@ func checkDeterminism(rec *stats.Recorder, c valCase) (msg string, known string)
 	for i, o := range variants {
 		for rep := 0; rep < 3; rep++ {
 			rv := dyn.Build(S, t, v, o)
+			if rep == 2 {
+				// "earlier use of the library": the third repetition follows marshals that failed midway
+				failedMarshal(c.AfterFailure)
+			}
 			doc, err := encode(t, rv, c.Format, nil)
 			if err != nil {
 				return fmt.Sprintf("encoding a valid value failed: %v", err), ""
@@ -164,7 +171,7 @@ func TestC09Determinism(t *testing.T) {
 		if format != "query-fields" && rapid.IntRange(0, 4).Draw(rt, "anyroot") == 0 {
 			ty = drawType(rt, roots)
 		}
-		return valCase{CorpusSeed: corpusSeed, Type: ty.String(), Format: format, Value: g.Value(rt, ty, 0)}
+		return valCase{CorpusSeed: corpusSeed, Type: ty.String(), Format: format, Value: g.Value(rt, ty, 0), AfterFailure: rapid.IntRange(0, 3).Draw(rt, "failed_entries")}
 	}, checkDeterminism)
 }
 
